@@ -244,6 +244,26 @@ def single_faults(ser, rng, stride: dict | None = None, char_samples: int = 8):
                     tv.set("ct", 0, b64.enc(d2))
                     return True
                 yield ("length.ct", "ciphertext " + how, fn)
+    # octets moved across the boundary of two adjacent segments (their concatenation is unchanged)
+    for left, right in (("ct", "tag"), ("iv", "ct")):
+        for k in (1, 2, 4, 8, 12, 15, 16):
+            for direction in ("to-left", "to-right"):
+                def fn(tv, left=left, right=right, k=k, direction=direction):
+                    a, b = _dec(tv, left, 0), _dec(tv, right, 0)
+                    if a is None or b is None:
+                        return False
+                    if direction == "to-left":
+                        if len(b) < k:
+                            return False
+                        a2, b2 = a + b[:k], b[k:]
+                    else:
+                        if len(a) < k:
+                            return False
+                        a2, b2 = a[:-k], a[-k:] + b
+                    tv.set(left, 0, b64.enc(a2))
+                    tv.set(right, 0, b64.enc(b2))
+                    return True
+                yield ("boundary.%s-%s" % (left, right), "%d octets moved %s across the %s|%s boundary" % (k, direction, left, right), fn)
     # non-empty encrypted key where the mode demands an empty one
     for i in range(n):
         def fn(tv, i=i):
